@@ -11,7 +11,7 @@ import (
 func init() {
 	core.Register(&core.Monitor{
 		ID:        "C07",
-		Technique: "reference-model monitor (integer modular arithmetic) + algebraic laws between calls",
+		Technique: "reference-model monitor (integer modular arithmetic) + algebraic laws between calls + concurrent scenarios (4-64 goroutines issuing the same judged calls at once) + hostile scheduler widths",
 		Rule: "per case: a valid ID (zooms 0..35, x/y uniform or at the grid edges, f of both signs) and two shifts with |dx|,|dy| <= 4*2^h " +
 			"(mixture of tiny, one-world-width, exact multiples of 2^h and uniform) and dv up to +-2^61; 5 library calls judged against " +
 			"mod-2^h arithmetic and the identity/composition/inverse laws. Non-trivial = some shift component non-zero; distinct by (ID, both shifts).",
